@@ -530,11 +530,41 @@ func (t *Topic) handleTopicTermination(sd *shutDown) {
 		s.detachSession(t.name)
 	}
 
+	// The run loop reads the queues no more: answer what was queued before the topic stopped.
+	t.drainQueues()
+
 	usersRegisterTopic(t, false)
 
 	// Report completion back to sender, if 'done' is not nil.
 	if sd.done != nil {
 		sd.done <- true
+	}
+}
+
+// drainQueues answers the requests which were already queued for the topic when it was told to stop. Nobody reads the
+// queues after that: a {sub} or {leave} left there was never answered and kept the session's only in-flight slot,
+// blocking the session's next {sub}, {leave} and its cleanup forever. The topic is inactive: the handlers refuse a {sub},
+// {leave} or {pub} (and release the slot); a {get}, {set} or {del} is refused here.
+func (t *Topic) drainQueues() {
+	if !t.isInactive() {
+		// System shutdown: the sessions are going away too.
+		return
+	}
+	for {
+		select {
+		case msg := <-t.reg:
+			t.registerSession(msg)
+		case msg := <-t.unreg:
+			t.unregisterSession(msg)
+		case msg := <-t.clientMsg:
+			t.handleClientMsg(msg)
+		case msg := <-t.meta:
+			if msg.sess != nil {
+				msg.sess.queueOut(ErrLockedReply(msg, types.TimeNow()))
+			}
+		default:
+			return
+		}
 	}
 }
 
